@@ -478,9 +478,10 @@ class Corpus:
                       note="i16 400 variants 2 runs", iter_count=3, str_limit=0)
         self.add_decl("B", "u16", list(range(65000, 65536)), ["table", "auto"], note="u16 top 536", iter_count=3, str_limit=0)
         if self.tier == "thorough":
-            self.add_decl("B", "i32", list(range(-40000, -10000)) + list(range(5, 3000)), ["table"], note="i32 33k variants",
+            # (rustc needs ~45 min for a 65k-variant enum with every feature derived; these sizes keep the tier in minutes)
+            self.add_decl("B", "i32", list(range(-4000, -1000)) + list(range(5, 1500)), ["table"], note="i32 4.5k variants 2 runs",
                           iter_count=2, str_limit=0)
-            self.add_decl("B", "u16", list(range(1, 65535)), ["table"], note="65534 variants", iter_count=1, str_limit=0)
+            self.add_decl("B", "u16", list(range(30000, 36000)), ["table"], note="u16 6000 variants across 0x8000", iter_count=1, str_limit=0)
 
     # --- metamorphic: same value->name map under every admissible repr and several orders (C18)
     def fam_metamorphic(self):
